@@ -17,6 +17,9 @@ def run(ctx):
     st = ctx.app_stats
     for d in (st.get("QueryBad") or [])[:5]:
         V.violation(ctx, "query-answer-changed", {"kind": "query-answer-not-stable", "theorem": "C19_holds", "what": d})
+    for d in (st.get("QueryInconsistent") or [])[:5]:
+        V.violation(ctx, "query-answers-contradict", {"kind": "two-query-paths-disagree-about-one-committed-height", "theorem": "C19_holds", "what": d,
+                                                      "all": (st.get("QueryInconsistent") or [])[:20]})
     for d in (st.get("NoiseQueryDiffs") or [])[:5]:
         V.violation(ctx, "query-answer-depends-on-mempool", {"kind": "query-answer-differs-from-committed-state-under-mempool-traffic", "theorem": "C19_holds", "what": d})
     common.patch_evidence(ctx, {"noisy_runs": st.get("NoiseRuns", 0), "queries_compared_under_mempool_traffic": st.get("NoiseQueriesCompared", 0),
